@@ -51,6 +51,86 @@ def const_int(src, name, rel, ty=r'\w+'):
         die('%s in %s' % (name, rel))
     return int(m.group(1).replace('_', ''))
 
+# ---- (C12/C03) per-target boolean options: name, default and the scope flag that guards each one, from
+# the `let x = allow_<scope> && get_bool(opts, "<name>", <default>);` lines of src/targets/<t>.rs; the
+# same table as documented in docs/reference/targets.md ("- `<name>`: default <b> (requires <s> scope)").
+RENDER_OPTIONS = {
+    'codex': ['write_repo_skills', 'write_user_skills', 'write_user_prompts', 'write_agents_global', 'write_agents_repo_root'],
+    'claude_code': ['write_repo_commands', 'write_user_commands', 'write_repo_skills', 'write_user_skills'],
+    'cursor': ['write_rules'],
+    'vscode': ['write_instructions', 'write_prompts'],
+    'jetbrains': ['write_guidelines'],
+    'zed': ['write_rules'],
+}
+DOC_SECTIONS = {'codex': r'## 1\) codex', 'claude_code': r'## 2\) claude_code', 'cursor': r'## 3\) cursor',
+                'vscode': r'## 4\) vscode', 'jetbrains': r'## 5\) jetbrains', 'zed': r'## 8\) zed'}
+
+def render_tables(repo, L):
+    doc = read(repo, 'docs/reference/targets.md')
+    src_rows = []; doc_rows = []
+    for tgt, names in RENDER_OPTIONS.items():
+        rel = 'src/targets/%s.rs' % tgt
+        src = read(repo, rel)
+        found = re.findall(r'let\s+\w+\s*=\s*allow_(user|project)\s*&&\s*get_bool\(\s*opts\s*,\s*"(\w+)"\s*,\s*(true|false)\s*\)\s*;', src)
+        allgb = re.findall(r'get_bool\(\s*opts\s*,\s*"(\w+)"', src)
+        if sorted(n for _, n, _ in found) != sorted(names) or sorted(allgb) != sorted(names):
+            die('boolean options of target %s in %s: expected %s, found guarded %s / all %s' %
+                (tgt, rel, sorted(names), sorted(n for _, n, _ in found), sorted(allgb)))
+        for sc, n, d in found:
+            src_rows.append((tgt, n, d == 'true', sc == 'project'))
+            L.append('Definition opt_%s_%s : bool * bool := (%s, %s). (* (default, requires project scope [else user]) *)'
+                     % (tgt, n, d, 'true' if sc == 'project' else 'false'))
+        m = re.search(DOC_SECTIONS[tgt] + r'\n(.*?)(?=\n## |\Z)', doc, re.S)
+        if not m:
+            die('section of target %s in docs/reference/targets.md' % tgt)
+        drows = re.findall(r'^- `(\w+)`: default (true|false) \(requires (user|project) scope\)', m.group(1), re.M)
+        if sorted(n for n, _, _ in drows) != sorted(names):
+            die('documented options of target %s in docs/reference/targets.md: %s' % (tgt, drows))
+        for n, d, sc in drows:
+            doc_rows.append((tgt, n, d == 'true', sc == 'project'))
+            L.append('Definition doc_opt_%s_%s : bool * bool := (%s, %s).' % (tgt, n, d, 'true' if sc == 'project' else 'false'))
+    cb = lambda b: 'true' if b else 'false'
+    row = lambda r: '(%s, %s, %s, %s) (* %s.%s *)' % (codes(r[0]), codes(r[1]), cb(r[2]), cb(r[3]), r[0], r[1])
+    L.append('Definition render_option_table : list (str * str * bool * bool) :=\n  [%s].' % ';\n   '.join(row(r) for r in sorted(src_rows)))
+    L.append('Definition doc_render_option_table : list (str * str * bool * bool) :=\n  [%s].' % ';\n   '.join(row(r) for r in sorted(doc_rows)))
+    # codex_home default literal and the option/env names
+    util = read(repo, 'src/targets/util.rs')
+    m = re.search(r'opts\.get\("(codex_home)"\).*?std::env::var\("(CODEX_HOME)"\).*?expand_tilde\("(~/[^"]*)"\)', util, re.S)
+    if not m:
+        die('codex_home_from_options (option name, env name, default) in src/targets/util.rs')
+    L.append(coq_str_def('codex_home_option_name', m.group(1)))
+    L.append(coq_str_def('codex_home_default', m.group(3)))
+    m = re.search(r'match s\.trim\(\)\.to_ascii_lowercase\(\)\.as_str\(\) \{\s*((?:"[^"]*"\s*\|?\s*)+)=> true,\s*((?:"[^"]*"\s*\|?\s*)+)=> false,', util)
+    if not m:
+        die('get_bool string tables in src/targets/util.rs')
+    L.append(coq_strlist_def('get_bool_true_strings', rust_str_list(m.group(1))))
+    L.append(coq_strlist_def('get_bool_false_strings', rust_str_list(m.group(2))))
+    # cursor rule header
+    cur = read(repo, 'src/targets/cursor.rs')
+    m = re.search(r'format!\("(---\\ndescription: )\{description_json\}((?:[^"\\]|\\.)*)"\)', cur)
+    m2 = re.search(r'let description = format!\("((?:[^"\\{]|\\.)*)\{\}"\s*,\s*m\.id\)', cur)
+    m3 = re.search(r'format!\("\{\}(\.mdc)"', cur)
+    if not m or not m2 or not m3:
+        die('cursor rule header / description / extension format strings in src/targets/cursor.rs')
+    un = lambda x: bytes(x, 'utf-8').decode('unicode_escape')
+    L.append(coq_str_def('cursor_header_before', un(m.group(1))))
+    L.append(coq_str_def('cursor_header_after', un(m.group(2))))
+    L.append(coq_str_def('cursor_description_prefix', un(m2.group(1))))
+    L.append(coq_str_def('cursor_rule_ext', m3.group(1)))
+    # separator between the parts of an aggregated instructions file (both the marked and the plain branch)
+    for tgt in ('codex', 'vscode', 'jetbrains', 'zed'):
+        rel = 'src/targets/%s.rs' % tgt
+        joins = re.findall(r'\.collect::<Vec<_>>\(\)\s*\.join\("((?:[^"\\]|\\.)*)"\)', read(repo, rel))
+        if len(joins) != 2 or joins[0] != joins[1]:
+            die('the two instruction-part join separators in ' + rel)
+        L.append(coq_str_def('agg_sep_' + tgt, un(joins[0])))
+    # directories that copy_tree leaves out of a materialised module
+    fs = read(repo, 'src/fs.rs')
+    m = re.search(r'pub fn copy_tree\(.*?\.any\(\|c\| c\.as_os_str\(\) == "([^"]+)" \|\| c\.as_os_str\(\) == "([^"]+)"\)', fs, re.S)
+    if not m:
+        die('copy_tree ignored component names in src/fs.rs')
+    L.append(coq_strlist_def('copy_tree_ignored', [m.group(1), m.group(2)]))
+
 def main():
     repo, out = sys.argv[1], sys.argv[2]
     L = []
@@ -121,10 +201,26 @@ def main():
     ids = read(repo, 'src/ids.rs')
     L.append('Definition fs_key_prefix_max : N := %d.' % const_int(ids, 'MODULE_FS_KEY_PREFIX_MAX_LEN', 'src/ids.rs'))
 
+    # (C12/C03) render option tables
+    render_tables(repo, L)
+
     # markers
     mk = read(repo, 'src/markers.rs')
     L.append(coq_str_def('marker_start_prefix', const_str(mk, 'MODULE_SECTION_START_PREFIX', 'src/markers.rs')))
     L.append(coq_str_def('marker_end', const_str(mk, 'MODULE_SECTION_END_MARKER', 'src/markers.rs')))
+    # (C17) separator each target puts between the marked module sections of an aggregated
+    # instructions file: (target, separator) per target that calls format_module_section
+    seps = []
+    for tgt in ('codex', 'vscode', 'jetbrains', 'zed'):
+        rel = 'src/targets/%s.rs' % tgt
+        tsrc = read(repo, rel)
+        found = re.findall(r'format_module_section\(&module_id,\s*&text\)\s*\)\s*\.collect::<Vec<_>>\(\)\s*'
+                           r'\.join\("((?:[^"\\]|\\.)*)"\)', tsrc)
+        if len(found) != 1:
+            die('aggregated-instructions join separator (format_module_section … .join("…")) in ' + rel)
+        seps.append((tgt, bytes(found[0], 'utf-8').decode('unicode_escape')))
+    L.append('Definition instructions_join_seps : list (str * str) :=\n  [%s].' %
+             ';\n   '.join('(%s, %s) (* %s %s *)' % (codes(t), codes(sp), t, json.dumps(sp).replace('*)', '* )')) for t, sp in seps))
 
     # target manifest
     tm = read(repo, 'src/target_manifest.rs')
@@ -143,16 +239,39 @@ def main():
     if not m:
         die('is_shell_separator in src/policy.rs')
     L.append(coq_strlist_def('shell_separators', rust_str_list(m.group(1))))
-    m = re.search(r'fn agentpack_command_id\(argv: &\[String\]\) -> Option<String> \{(.*?)\n\}\n', pol, re.S)
+    # (C20) the global-flag skipping loop lives in skip_global_flags (after the F9a fix) or, on older
+    # trees, inside agentpack_command_id itself
+    m = re.search(r'fn skip_global_flags\(argv: &\[String\], mut idx: usize\) -> usize \{(.*?)\n\}\n', pol, re.S) or \
+        re.search(r'fn agentpack_command_id\(argv: &\[String\]\) -> Option<String> \{(.*?)\n\}\n', pol, re.S)
     if not m:
-        die('agentpack_command_id in src/policy.rs')
+        die('skip_global_flags / agentpack_command_id in src/policy.rs')
     cid = m.group(1)
     m2 = re.search(r'if matches!\(t,\s*((?:"--[\w-]+"\s*\|?\s*)+)\)\s*\{\s*idx \+= 2;', cid)
     m3 = re.search(r'if matches!\(t,\s*((?:"--[\w-]+"\s*\|?\s*)+)\)\s*\{\s*idx \+= 1;', cid)
     if not m2 or not m3:
-        die('global flag tables in agentpack_command_id')
+        die('global flag tables in skip_global_flags / agentpack_command_id')
     L.append(coq_strlist_def('policy_flags_with_value', rust_str_list(m2.group(1))))
     L.append(coq_strlist_def('policy_flags_no_value', rust_str_list(m3.group(1))))
+    # (C20) the CLI's own global flags, from the clap derive on `struct Cli` in src/cli/args.rs:
+    # `#[arg(long, ... global = true)] pub(crate) name: T` — T = bool takes no value, anything else does
+    cli_args = read(repo, 'src/cli/args.rs')
+    mcli = re.search(r'pub struct Cli \{(.*?)\n\}\n', cli_args, re.S)
+    if not mcli:
+        die('struct Cli in src/cli/args.rs')
+    gv, gb = [], []
+    for am, name, ty in re.findall(r'#\[arg\(([^\]]*?)\)\]\s*pub(?:\(crate\))?\s+(\w+)\s*:\s*([^,\n]+),', mcli.group(1)):
+        if not re.search(r'\bglobal\s*=\s*true\b', am) or not re.search(r'\blong\b', am):
+            continue
+        flag = '--' + name.replace('_', '-')
+        (gb if ty.strip() == 'bool' else gv).append(flag)
+    if not gv or not gb:
+        die('global flags of struct Cli in src/cli/args.rs')
+    L.append(coq_strlist_def('cli_global_value_flags', gv))
+    L.append(coq_strlist_def('cli_global_bool_flags', gb))
+    # (C20) the shell control characters split off by shell_words (absent before the F9b fix: empty list)
+    m = re.search(r'fn shell_words\(line: &str\) -> Vec<String> \{.*?if matches!\(c,\s*((?:\'[^\']\'\s*\|?\s*)+)\)', pol, re.S)
+    ops = re.findall(r"'(.)'", m.group(1)) if m else []
+    L.append('Definition policy_op_chars : list N := [%s]. (* %s *)' % (';'.join(str(ord(c)) for c in ops), ' '.join(ops).replace('*)', '* )')))
 
     # error codes in source and registry in docs
     src_codes = set()
@@ -183,6 +302,64 @@ def main():
         die('add_default_reason_code_and_next_actions table in src/user_error.rs')
     L.append('Definition default_guidance : list (str * (str * list str)) :=\n  [%s].' %
              ';\n   '.join('(%s, (%s, [%s])) (* %s *)' % (codes(c), codes(r), '; '.join(codes(a) for a in acts), c) for c, r, acts in guid))
+
+    # ---- contract layer (C08/C09/C10) ----
+    # commands that do not support --json (help.rs supports_json_for_command exclusions)
+    hp = read(repo, 'src/cli/commands/help.rs')
+    m = re.search(r'fn supports_json_for_command\(command_id: &str\) -> bool \{\s*!matches!\(command_id,\s*(.*?)\)\s*\}', hp, re.S)
+    if not m:
+        die('supports_json_for_command in src/cli/commands/help.rs')
+    L.append(coq_strlist_def('json_unsupported_ids', rust_str_list(m.group(1))))
+
+    # MCP tools: (name, read_only) from tool_registry.rs; command_id of each mutating tool from its own file
+    treg = read(repo, 'src/mcp/tools/tool_registry.rs')
+    tools = re.findall(r'tool\(\s*"(\w+)"\s*,\s*"(?:[^"\\]|\\.)*"\s*,\s*tool_input_schema::<\w+>\(\)\s*,\s*(true|false)\s*,?\s*\)', treg)
+    if len(tools) < 8:
+        die('tool(...) entries in src/mcp/tools/tool_registry.rs (found %d)' % len(tools))
+    mut_tools = []
+    for name, ro in tools:
+        if ro == 'true':
+            continue
+        tsrc = read(repo, 'src/mcp/tools/%s.rs' % name)
+        ids = set(re.findall(r'command_id:\s*"([^"]+)"', tsrc))
+        if len(ids) != 1:
+            die('single command_id literal in src/mcp/tools/%s.rs (found %r)' % (name, sorted(ids)))
+        mut_tools.append((name, ids.pop()))
+    if not mut_tools:
+        die('no mutating MCP tools in tool_registry.rs')
+    L.append('Definition mcp_mutating_tools : list (str * str) :=\n  [%s].' %
+             ';\n   '.join('(%s, %s) (* %s -> %s *)' % (codes(a), codes(b), a, b) for a, b in mut_tools))
+    L.append(coq_strlist_def('mcp_readonly_tools', [n for n, ro in tools if ro == 'true']))
+
+    # guidance values documented in docs/SPEC.md ("currently: ..." and the git refusal list)
+    spec = read(repo, 'docs/SPEC.md')
+    sg = {}
+    for gm in re.finditer(r'`reason_code` \(currently: `([a-z0-9_]+)`\)\s*\n\s*- `next_actions` \(currently: `\[(.*?)\]`\)', spec):
+        before = re.findall(r'\bE_[A-Z][A-Z0-9_]+\b', spec[max(0, gm.start() - 700):gm.start()])
+        if not before:
+            die('error code preceding the SPEC.md guidance value %s' % gm.group(1))
+        sg[before[-1]] = (gm.group(1), rust_str_list(gm.group(2)))
+    for gm in re.finditer(r'`(E_[A-Z][A-Z0-9_]+)`: `reason_code`=`([a-z0-9_]+)`, `next_actions`=`\[(.*?)\]`', spec):
+        sg[gm.group(1)] = (gm.group(2), rust_str_list(gm.group(3)))
+    if len(sg) < 8:
+        die('guidance values ("currently: ...") in docs/SPEC.md (found %d)' % len(sg))
+    L.append('Definition spec_guidance : list (str * (str * list str)) :=\n  [%s].' %
+             ';\n   '.join('(%s, (%s, [%s])) (* %s *)' % (codes(c), codes(sg[c][0]), '; '.join(codes(a) for a in sg[c][1]), c) for c in sorted(sg)))
+
+    # codes whose registry entry documents the additive guidance fields {reason_code, next_actions}
+    sections = re.split(r'^###\s+', doc, flags=re.M)[1:]
+    with_guid = []
+    for sec in sections:
+        hm = re.match(r'`?(E_[A-Z][A-Z0-9_]+)`?', sec)
+        if hm and re.search(r'guidance fields: `\{reason_code, next_actions\}`', sec):
+            with_guid.append(hm.group(1))
+    if len(with_guid) < 10:
+        die('"guidance fields: {reason_code, next_actions}" lines in docs/reference/error-codes.md')
+    L.append(coq_strlist_def('registry_guidance_codes', sorted(with_guid)))
+
+    # envelope schema version (output.rs)
+    outp = read(repo, 'src/output.rs')
+    L.append('Definition json_schema_version : N := %d.' % const_int(outp, 'JSON_SCHEMA_VERSION', 'src/output.rs'))
 
     L.append('')
     txt = '\n'.join(L) + '\n'
